@@ -34,6 +34,19 @@ CLAIMED.update({
             "§3 C02"),
 })
 
+CLAIMED.update({
+    "C03": ("model_checking",
+            "complete products (4096 quintic coefficient vectors x intervals x epsilon x depth; estimator-regular families admitted by a closed-form filter) plus deviation-bounded stateless DFS in which the harness answers the integrand, compared on every execution with a textbook adaptive-Simpson recursion on the same answers",
+            "Exactness on quintics is decided on every member of a 4^6 coefficient product on 9 intervals (both orientations, width 1e-6..1e3, equal limits) x 5 epsilons x 5-7 depths against a binary128 antiderivative; the 4*epsilon error clause on every admitted member of the exp/cosh/inverse-power/power families; the structural clauses (swap = bitwise negation, epsilon sign, abscissae inside the closed interval, at most 2^(depth+2)+1 evaluations) on all of those and on every execution in which the harness itself answers the integrand with all placements of <=3 (quick) / <=4 (thorough) non-zero answers among the first 17/33 queries.",
+            "Error clause skipped (and counted) where the recursion bottoms out; deviations limited to the stated window and alphabet {+-1, +-1e6, 1e-9}; default answer 0.",
+            "§3 C03"),
+    "C11": ("model_checking",
+            "stateless exploration of environment answers: the harness plays the objective for Find_Minimum/Find_Maximum and Minimization::minimize (every answer sequence over 6 letters at the first 7 (quick) / 8 (thorough) evaluations, then a convex default bowl); complete products of unimodal 1D objectives and quadratic bowls d<=6",
+            "'Never worse than the start' and the consistency of the reported state (fmin, y, best-first simplex, nfunc) are statements about every objective; an execution is determined by the objective values it sees, so all answer sequences up to the depth bound are enumerated on the real code and the clauses are checked on each (Find_Maximum(-f) must issue identical queries and return identical bits). Convergence is decided on complete products objective x start x tolerance (1D) and dimension x condition x rotation x offset x scale x ftol (bowls), with the three overloads compared bitwise.",
+            "An execution that ends in the library's iteration-cap exit under an adversarial objective is permitted and counted (link-time interposition of exit()); on unimodal objectives and convex bowls it is a violation. Bowl distance bound sqrt(20*ftol*(|f*|+1e-10)/lambda_min) as fixed in DESIGN.md; eight bowl inputs that exceed it are recorded in KNOWN_FINDINGS.txt.",
+            "§3 C11"),
+})
+
 NOT_APPLICABLE = {
 }
 
